@@ -52,3 +52,53 @@ class DfaMonitor(object):
 
     def accepting(self, m):
         return m[1] is None and m[0] in self.dfa.accept
+
+
+class ClassifierMonitor(DfaMonitor):
+    """product of the URI-reference DFA with the indicator DFAs (component presence, host kind, absolute path,
+    segments).  Monitor state = (tuple of DFA states, dead_age, lit, dead_in_lit); acceptance and error
+    bookkeeping follow the first (URI-reference) component."""
+
+    def __init__(self, names, dfas):
+        DfaMonitor.__init__(self, dfas[0])
+        self.names = names
+        self.dfas = dfas
+        self.tcache = {}
+
+    def init(self, al):
+        self.al = al
+        self.cmaps = []
+        for d in self.dfas:
+            cm = []
+            for s in al.sets:
+                cs = set(d.class_of[min(x, 256)] for x in s)
+                if len(cs) != 1:
+                    raise AssertionError('alphabet does not refine the indicator DFA classes')
+                cm.append(cs.pop())
+            self.cmaps.append(cm)
+        self.lb = al.of[LB]
+        self.rb = al.of[RB]
+        return (tuple(d.start for d in self.dfas), None, None, False)
+
+    def on_symbol(self, m, c, al):
+        qs, age, lit, dil = m
+        if age is not None:
+            return (qs, min(CAP, age + 1), None if lit is None else min(CAP, lit + 1), dil)
+        key = (qs, c)
+        q2 = self.tcache.get(key)
+        if q2 is None:
+            q2 = tuple(d.trans[q][cm[c]] for d, q, cm in zip(self.dfas, qs, self.cmaps))
+            self.tcache[key] = q2
+        if q2[0] in self.dfa.dead_states:
+            return ((self.dead,) + (0,) * (len(qs) - 1), 1, None if lit is None else min(CAP, lit + 1), lit is not None)
+        if c == self.lb:
+            return (q2, None, 1, False)
+        if lit is not None:
+            if c == self.rb:
+                return (q2, None, None, False)
+            return (q2, None, min(CAP, lit + 1), False)
+        return (q2, None, None, False)
+
+    def indicators(self, m):
+        qs = m[0]
+        return dict((n, q in d.accept) for n, d, q in zip(self.names, self.dfas, qs))
